@@ -186,6 +186,14 @@ FNS = {'log10': lambda x: np.log10(x + 1.0) if False else np.log10(np.maximum(x,
 FORMS = ('pos', 'name', 'neg', 'mixed', 'tuple')
 
 
+def scalar_forms(sub, n=3):
+    """a single channel may also be named without a list: by position (0 included), by name, from the end"""
+    if len(sub) != 1:
+        return []
+    j = sub[0]
+    return [j, 'CH%d' % (j + 1), j - n]
+
+
 def spell(sub, form, n=3):
     """the channel list sub (positions) written by position, by name, by position counted from the last channel, or mixed"""
     if form == 'pos':
@@ -209,8 +217,8 @@ def run_case(c):
             pne = ['%r,%r' % (c['a0'], c['a1'])] * 3
             d = make_sample(c['res'], pne)
             for sub in ([c['sub']] if 'sub' in c else subsets(3)):
-                for spelled in FORMS:
-                    chans = spell(sub, spelled)
+                for spelled in list(FORMS) + ['scalar:%d' % i for i in range(len(scalar_forms(sub)))]:
+                    chans = spell(sub, spelled) if not spelled.startswith('scalar:') else scalar_forms(sub)[int(spelled[7:])]
                     one = dict(c, sub=sub)
                     t = FlowCal.transform.to_rfi(d, chans)
                     what = 'to_rfi(log amplifier a0=%r a1=%r, resolutions %r, channels=%r)' % (c['a0'], c['a1'], c['res'], chans)
@@ -345,11 +353,24 @@ def run_case(c):
             d = make_sample([1024, 4096, 256], ['0,0'] * 3)
             fn = FNS[c['fn']]
             for sub in subsets(3):
-                for spelled in FORMS:
-                    chans = spell(sub, spelled)
+                for spelled in list(FORMS) + ['scalar:%d' % i for i in range(len(scalar_forms(sub)))]:
+                    chans = spell(sub, spelled) if not spelled.startswith('scalar:') else scalar_forms(sub)[int(spelled[7:])]
                     t = FlowCal.transform.transform(d, chans, fn)
                     what = 'transform(np %s, channels=%r)' % (c['fn'], chans)
                     if check_limits(res, what, 'transform:' + c['fn'], d, t, sub, dict(c), 3):
                         res.ok('transform', True)
+                # the wrapper pattern: default channels fixed by the wrapper, an explicit selection by the caller (the selection wins),
+                # and no selection (the defaults are converted)
+                for dflt in ([0], [1, 2], [2, 0, 1], 1):
+                    dcols = [dflt] if isinstance(dflt, int) else list(dflt)
+                    for sel, conv in ((sub, sub), (None, sorted(dcols))) if sub == [0] else ((sub, sub),):
+                        what = 'transform(np %s, channels=%r, def_channels=%r)' % (c['fn'], sel, dflt)
+                        try:
+                            t = FlowCal.transform.transform(d, sel, fn, def_channels=dflt)
+                        except Exception as e:
+                            res.violation('transform-def:raises:%s' % type(e).__name__, '%s raised %s: %s' % (what, type(e).__name__, e), dict(c))
+                            continue
+                        if check_limits(res, what, 'transform-def:' + c['fn'], d, t, conv, dict(c), 3):
+                            res.ok('transform', True)
             res.sample({'kind': k, 'function': c['fn']})
     return res
